@@ -18,24 +18,41 @@ from common import MachineryError, NCPU, WORK, printed, run_tlc, tlc_error_excer
 
 def rand_history(rng: random.Random, n: int):
     """calls of one engine kind only (mixed kinds are outside the model); tracks which late replacements were made"""
-    la, r = "L1", "R1"
+    la, r, dst = "L1", "R1", "D0"
     calls = []
+    main = rng.choice(["P1", "P2"])          # most steps of one history use the same parameters and options
+    par = lambda: main if rng.random() < 0.85 else ("P2" if main == "P1" else "P1")  # noqa: E731
     for i in range(n):
         x = rng.random()
-        innet = [la, "L2", "O1", r, "D1"]
+        if x < 0.12 and calls:
+            # touch a neighbour between two identical steps of the same element: the second step must see the neighbour's new variables
+            stf = [la, "L2", "O1", r]
+            e1 = rng.choice(stf)
+            e2 = rng.choice([e for e in stf if e != e1])
+            p_ = par()
+            if dst == "D0" and rng.random() < 0.4:
+                # replace the free destination by a congested one between two identical steps of the link that feeds it
+                calls += [["step", "L2", "", p_, "O0"], ["add_later", "D1"], ["init", "D1", ""], ["step", "L2", "", p_, "O0"]]
+                dst = "D1"
+            else:
+                calls += [["step", e1, "", p_, "O0"], ["init", e2, ""], ["step", e2, "", p_, "O0"], ["step", e1, "", p_, "O0"]]
+            if rng.random() < 0.5:
+                calls.append(["compile", None])
+            continue
+        innet = [la, "L2", "O1", r, dst]
         stateful = [la, "L2", "O1", r]
         if x < 0.22:
-            calls.append(["net_step", "", rng.choice(["P1", "P1", "P2"]), rng.choice(["O0", "O0", "O1"]), ""])
+            calls.append(["net_step", "", par(), rng.choice(["O0", "O0", "O1"]), ""])
         elif x < 0.40:
             calls.append(["init", rng.choice(innet), ""])
         elif x < 0.46:
             calls.append(["init_all", ""])
         elif x < 0.72:
-            calls.append(["step", rng.choice(stateful), "", rng.choice(["P1", "P1", "P2"]), "O0"])
-        elif x < 0.80 and (la == "L1" or r == "R1"):
-            which = rng.choice([w for w in (("L3",) if la == "L1" else ()) + (("R2",) if r == "R1" else ())])
+            calls.append(["step", rng.choice(stateful), "", par(), "O0"])
+        elif x < 0.80 and (la == "L1" or r == "R1" or dst == "D0"):
+            which = rng.choice([w for w in (("L3",) if la == "L1" else ()) + (("R2",) if r == "R1" else ()) + (("D1",) if dst == "D0" else ())])
             calls.append(["add_later", which])
-            la, r = ("L3" if which == "L3" else la), ("R2" if which == "R2" else r)
+            la, r, dst = ("L3" if which == "L3" else la), ("R2" if which == "R2" else r), ("D1" if which == "D1" else dst)
         else:
             calls.append(["compile", None])
     calls.append(["compile", None])
@@ -73,7 +90,7 @@ def _record(args):
 
 def run(pid: str, tier: str) -> dict:
     seed = common.seed()
-    ntr, length = (120, 14) if tier == "quick" else (2500, 30)
+    ntr, length = (300, 14) if tier == "quick" else (4000, 30)
     rng = random.Random(seed * 7907 + 3)
     jobs = [(f"lt{seed}-{i}", rng.choice(["sx", "mx"]), rand_history(rng, rng.randint(3, length)), None) for i in range(ntr)]
     ctx = mp.get_context("spawn")
@@ -111,6 +128,8 @@ def run(pid: str, tier: str) -> dict:
         for step, clause in v["fails"]:
             if clause.startswith("model."):
                 continue   # a call the model leaves unspecified: the rest of this history is not judged
+            if clause == "c19.ready_not_compiled" and not all(x[0] in ("net_step", "compile") for x in t["calls"][:step]):
+                continue   # outside the listed properties (see liferun.replay_transition)
             if any(clause.startswith(p_) for p_ in pref):
                 viol.append({"signature": f"{pid}|{clause}|{json.dumps(t['calls'][step - 1])}",
                              "summary": f"recorded history {t['id']} ({kind}) step {step} {json.dumps(t['calls'][step - 1])}: {clause}; "
